@@ -482,20 +482,23 @@ def _r5(idx, rep):
 
     fm = idx.method("ResultsManager", "is_valid")
     rep.analysed(fm)
-    ok, d = fold_is_all(fm, pred_factory(["{v}.is_valid", "{v}.csvpath.is_valid"]))
+    # interpreted over every list of <= 3 members (with and without collected lines) handed out by get_named_results(name)
+    seen_names = []
+
+    def _named(i, c, r, a, k):
+        seen_names.append(a[0] if a else k.get("name"))
+        return None
+
+    _, ok, d, _ = K.fold_table(idx, "ResultsManager", "is_valid", "is_valid", source_handler="self.get_named_results", args={"name": "NAME"})
     rep.check(ok, "R5", f"{fm.file}::ResultsManager.is_valid fold", f"not a conjunction over the members' verdicts: {d}", K.where(fm, fm.node))
-    # iterates the named results of `name`
-    loops = [n for n in walk_no_nested(fm.node) if isinstance(n, (ast.For, ast.GeneratorExp, ast.ListComp))]
-    srcs = [unparse(n.value) for n in walk_no_nested(fm.node) if isinstance(n, ast.Assign)] + [unparse(l.iter) for l in loops if isinstance(l, ast.For)]
-    rep.check(any("get_named_results(name)" in s for s in srcs), "R5", f"{fm.file}::ResultsManager.is_valid source",
-              "does not iterate get_named_results(name)", K.where(fm, fm.node))
+    it = Interp(idx, types={"self": "ResultsManager"}, unknown_calls="residual", handlers={"self.get_named_results": lambda i, c, r, a, k: (seen_names.append(a[0] if a else k.get("name")), [])[1]})
+    it.run_all(fm, args={"name": "NAME"})
+    rep.check(seen_names == ["NAME"], "R5", f"{fm.file}::ResultsManager.is_valid source", f"asks for the results of {seen_names}, expected the group it was asked about", K.where(fm, fm.node))
 
     fr = idx.method("ResultsRegistrar", "all_valid")
     rep.analysed(fr)
-    ok, d = fold_is_all(fr, pred_factory(["{v}.csvpath.is_valid", "{v}.is_valid"]))
+    _, ok, d, _ = K.fold_table(idx, "ResultsRegistrar", "all_valid", "csvpath.is_valid")
     rep.check(ok, "R5", f"{fr.file}::ResultsRegistrar.all_valid fold", f"not a conjunction over the members' verdicts: {d}", K.where(fr, fr.node))
-    its = [unparse(n.iter) for n in walk_no_nested(fr.node) if isinstance(n, ast.For)] + [unparse(g.iter) for n in walk_no_nested(fr.node) if isinstance(n, (ast.GeneratorExp, ast.ListComp)) for g in n.generators]
-    rep.check(its == ["self.results"], "R5", f"{fr.file}::ResultsRegistrar.all_valid source", f"iterates {its}, expected self.results", K.where(fr, fr.node))
 
     # Result.is_valid: every return is the csvpath verdict, the saved runtime verdict, or False when there is no csvpath
     fv = idx.method("Result", "is_valid")
